@@ -319,6 +319,12 @@ namespace options
         {
             if (option.second->matches(*it))
             {
+                if (it->is_short() && it->as_short_list().size() > 1)
+                {
+                    raise<parsing_error>("option -", option.second->short_name(),
+                                         " takes a value and cannot be part of '", it->data(), "'");
+                }
+
                 if (it->has_value())
                 {
                     option.second->update_value(*it);
